@@ -20,7 +20,7 @@ def t_cache_frame(world):
                 [f.name], 'every path; interest-rate calculator opaque (&self)'); ob.paths = len(res)
         for r in returned(res):
             if ob.witness(eng, r, []) is False: continue
-            bank = eng.deref_val(args[0])
+            bank = eng.deref_val(r['roots'][0])      # the FINAL state of this path (forks clone the objects)
             lv = []; leaves(eng, bank, '', lv)
             for idxpath, val in lv:
                 nm = pretty('Bank', idxpath)
@@ -140,8 +140,8 @@ def mk_flow_tokens(name):
             ob.prove(eng, r, [okc], z3.And(op[5] == 0, zint(T[0][3].disc) == 0), 'wrapper / transfer errors propagated')
             calc = [(e, cnd) for e, cnd in events_with_cond(r['events']) if e[0] == 'call' and re.search(r'calculate_pre_fee_spl_deposit_amount$', e[1])]
             if inflow:
-                alts = [t_amt * W == booked] + [z3.And(cnd, c[2][1].e * W == booked, zint(c[3].disc) == 0, t_amt == c[3].payload[0][0].e) for c, cnd in calc]
-                ob.prove(eng, r, [okc], z3.Or(alts), 'tokens in == booked amount, or == pre-fee amount computed from exactly the booked amount', role='tokens-in')
+                alts = [t_amt * W == booked] + [z3.And(cnd, c[2][1].e * W == booked, c[2][2].e == z3.Int('clock.epoch'), zint(c[3].disc) == 0, t_amt == c[3].payload[0][0].e) for c, cnd in calc]
+                ob.prove(eng, r, [okc], z3.Or(alts), 'tokens in == booked amount, or == pre-fee amount computed from exactly the booked amount at the current epoch', role='tokens-in')
             else:
                 ob.prove(eng, r, [okc], z3.And(t_amt >= 0, t_amt * W <= booked), 'tokens out <= booked amount', role='tokens-out')
                 bank_flags = [n for n in free_consts(z3.And(r['pc'])) if n.endswith(str(fsym('X', 'Bank', 'flags'))[1:])]
